@@ -2,7 +2,7 @@
 #ifndef ARR_DEFS_H
 #define ARR_DEFS_H
 #define LEN_MAX ((size_t)1 << 30)
-size_t g_size0; uint32_t g_wser; size_t g_k, g_j; uint32_t g_kser;
+size_t g_size0; uint32_t g_wser; size_t g_j; uint32_t g_kser;   /* g_k is declared in specs/rb_prelude.h */
 #define OBJ(p) __CPROVER_POINTER_OBJECT(p)
 #define ESZ sizeof(struct Elem)
 /* a well-formed array object: owns exactly m_size elements (or nothing) */
